@@ -1,7 +1,7 @@
 (* C15 -- Start-up fails fast instead of running on an inconsistent or partial basis.
    Model: Model/Backends.v startup (checkpoint.Load + openAllStreams with injected faults).
    Tie to /repo: Corr/CorrC15.v (the real stream.Open in child processes, one per case). *)
-From Verif Require Import Base.Prelude Base.Bytes Model.Stream Model.Backends Proofs.StreamProofs Proofs.BackendsProofs.
+From Verif Require Import Base.Prelude Base.Bytes Model.Stream Model.Backends Proofs.StreamProofs Proofs.BackendsProofs Model.Retry Proofs.RetryProofs.
 Local Open Scope N_scope.
 
 (* a session that starts covers its whole assignment, and no stream is requested from a position the
@@ -43,4 +43,24 @@ Example C15_example :
   startup (Cfg false false None []) fempty 0 1 sv (Faults false false false [1] false) = OpenFailed /\
   (* a checkpoint file that lacks an assigned vBucket: the start-up fails instead of covering part of the assignment *)
   startup (Cfg false false None []) (fupd fempty 0 (MkD 7 5 5 5)) 0 1 sv (Faults false false false [] true) = OpenFailed.
+Proof. vm_compute. repeat split; reflexivity. Qed.
+
+(* --- "after the bounded retries on re-open" (Model/Retry.v); nat arithmetic --- *)
+Local Close Scope N_scope.
+
+(* the client terminates on a reopen exactly when all five requests failed with the stream open throughout: never
+   earlier, never when a request succeeded, never once the stream has been closed, and it never runs on without the
+   vBucket (the only other outcomes are "streamed again" and "the whole stream was closed") *)
+Theorem C15_retry_gives_up_iff : forall closed answers,
+  snd (reopen closed answers) = GaveUp <-> (forall j, j < retry_budget -> closed j = false /\ answers j = false).
+Proof. exact reopen_gives_up_iff. Qed.
+Print Assumptions C15_retry_gives_up_iff.
+
+Theorem C15_retry_bounded : forall closed answers, fst (reopen closed answers) <= retry_budget.
+Proof. intros closed answers. apply requests_bounded. Qed.
+Print Assumptions C15_retry_bounded.
+
+Example C15_retry_example :
+  reopen (closed_of None) (answers_of 5) = (5, GaveUp) /\ reopen (closed_of None) (answers_of 4) = (5, Reopened) /\
+  reopen (closed_of (Some 4)) (answers_of 5) = (4, Abandoned).
 Proof. vm_compute. repeat split; reflexivity. Qed.
